@@ -35,7 +35,7 @@ try:
         r = subprocess.run([here + '/check', c, '--tier', tier], env=env, capture_output=True, text=True)
         lines = [l for l in r.stdout.splitlines() if l.startswith(('VIOLATION', '  key='))][:4]
         assert ('panqec from ' + d) in r.stdout, r.stdout[:300] + r.stderr[-500:]
-        status = {0: 'MISSED', 1: 'CAUGHT'}.get(r.returncode, 'HARNESS-ERROR rc=%d' % r.returncode)
+        status = {0: 'MISSED', 1: 'CAUGHT' if 'VIOLATION property=' in r.stdout else 'EXIT-1-WITHOUT-VIOLATION-LINE'}.get(r.returncode, 'HARNESS-ERROR rc=%d' % r.returncode)
         print('%s %s: %s   %s' % (name, c, status, r.stdout.strip().splitlines()[-1][:160]))
         for l in lines: print('    ' + l[:220])
         if r.returncode not in (0, 1): print(r.stdout[-1500:], r.stderr[-1500:])
